@@ -52,10 +52,15 @@ func selftest(tier string) (killed, total int, notes []string) {
 		famSeen[p.fam]++
 	}
 	var specs []string
-	enumerate(tier, func(spec string) { specs = append(specs, spec) })
+	enumClassic(tier, func(spec string) { specs = append(specs, spec) })
 	sort.SliceStable(specs, func(a, b int) bool {
 		return rank[specs[a][:strings.IndexByte(specs[a], '|')]] < rank[specs[b][:strings.IndexByte(specs[b], '|')]]
 	})
+	// the tree family: a prefix of every cross-section of the tier (trees of <= 3 call nodes), scanned first - the scan
+	// stops as soon as every mutant is told apart
+	var treeSpecs []string
+	enumTrees(tier, 3, 4000, func(spec string) { treeSpecs = append(treeSpecs, spec) })
+	specs = append(treeSpecs, specs...)
 	done := false
 	visit := func(spec string) {
 		if done {
